@@ -27,7 +27,12 @@ tag names"), NOT read from the library:
   * an abbreviation whose last group(s) are not closed yet is outside the documented grammar: it may be rejected; when
     it is expanded, the tree must be the one the operators written so far denote (the open group has no `*N`).
 """
+import json
+import os
+
 import abbr_gen as g
+
+CORPUS = os.path.join(os.path.dirname(os.path.dirname(os.path.abspath(__file__))), 'corpus', 'C01')
 
 # attribute sets as (label, [attrs in abbr_gen.El form: (name text, value or None, quote)])
 ATTR_FORMS = [
@@ -64,8 +69,14 @@ ATTR_FORMS = [
 # what stands next to the attribute set on the same element
 BESIDE = [('alone', {}), ('alone', {}), ('alone', {}), ('class', dict(classes=['c'])), ('id', dict(id='i')), ('text', dict(text='w'))]
 TEXTS = ['t', 'some text', 'T', '1', 'a b c']
-EMPTY_NODE_CHILDREN = False   # generator class "`{}` / `[]` directly followed by `>`" on / off (off: see the final report -- on
-                              # the unchanged library the elements written below such a unit are not printed at all)
+EMPTY_NODE_CHILDREN = True    # generator class "`{}` / `[]` directly followed by `>`" on / off (on since the repair "fix: the
+                              # children of a text-only node are written also when its text is empty" of html.py element();
+                              # on the unrepaired library the elements written below such a unit are not printed at all)
+EMPTY_NODE_IMPLICIT_CHILD = False   # sub-class of the above: an element WITHOUT NAME (implicit name) whose nearest written
+                              # ancestor node is an empty `{}` / `[]` unit, e.g. `ol>{}>.c`.  Off: the library names it after the
+                              # nameless unit (`div`) instead of after the enclosing element (`li`; `ol>{t}>.c` gives `li`): convert.py
+                              # convert_element() moves the children of a text-only node up only when `elem.value` is truthy and `[]`
+                              # is falsy in Python (truthy in the JS original).  Open: see known_findings.d/emptynode.json "notes".
 
 
 # ---------------------------------------------------------------- the units
@@ -130,18 +141,50 @@ def render_open(stmt):
     return g.render(stmt[:-1]) + '(' + (tail if tail is not None else g.render(inner))
 
 
+def implicit_below_empty(stmt):
+    """ids of the empty units of `stmt` that are the nearest node above an element without name (the children of a text
+    node with text are moved up beside it by the converter, groups write nothing)."""
+    found = set()
+
+    def scan(nodes, empty_parent):
+        for n in nodes:
+            if n.el is None:
+                scan(n.kids, empty_parent)
+            elif is_empty_unit(n.el):
+                scan(n.kids, n)
+            elif is_text_unit(n.el):
+                scan(n.kids, empty_parent)
+            else:
+                if not n.el.name and empty_parent is not None:
+                    found.add(id(empty_parent.el))
+                scan(n.kids, None)
+    scan(g.denote_stmt(stmt), None)
+    return found
+
+
 def fix_empty_children(stmt):
-    """Unless EMPTY_NODE_CHILDREN: an empty unit is never directly followed by `>`."""
-    if EMPTY_NODE_CHILDREN:
+    """Unless EMPTY_NODE_CHILDREN: an empty unit is never directly followed by `>`.  Unless EMPTY_NODE_IMPLICIT_CHILD: the
+    `>` after an empty unit becomes `+` where an element without name would stand directly below that unit."""
+    if EMPTY_NODE_CHILDREN and EMPTY_NODE_IMPLICIT_CHILD:
         return stmt
-    out = []
-    for unit, op in stmt:
-        if isinstance(unit, g.Group):
-            unit = g.Group(fix_empty_children(unit.items), unit.repeat)
-        elif op == '>' and is_empty_unit(unit):
-            op = '+'
-        out.append((unit, op))
-    return out
+
+    def rewrite(items, which):
+        out = []
+        for unit, op in items:
+            if isinstance(unit, g.Group):
+                unit = g.Group(rewrite(unit.items, which), unit.repeat)
+            elif op == '>' and is_empty_unit(unit) and (which is None or id(unit) in which):
+                op = '+'
+            out.append((unit, op))
+        return out
+    if not EMPTY_NODE_CHILDREN:
+        return rewrite(stmt, None)
+    for _ in range(64):
+        which = implicit_below_empty(stmt)
+        if not which:
+            break
+        stmt = rewrite(stmt, which)
+    return stmt
 
 
 def size_ok(stmt, limit=300):
@@ -157,6 +200,15 @@ def rare_cases(ctx, names, configs, parents):
     out = []
     seen = set()
     k = [0]
+    # ---- corpus/C01/*.json: inputs that exposed defects ({"abbr", "config", "metas": [preorder, ...], "may_reject", "note"})
+    if os.path.isdir(CORPUS):
+        for fn in sorted(os.listdir(CORPUS)):
+            if fn.endswith('.json'):
+                with open(os.path.join(CORPUS, fn)) as f:
+                    recs = json.load(f)
+                for rec in (recs if isinstance(recs, list) else [recs]):
+                    out.append((rec['abbr'], rec.get('config') or {}, [[tuple(x) for x in m] for m in rec['metas']], bool(rec.get('may_reject'))))
+                    ctx.cover('rare:corpus')
 
     def emit(stmt, label, cfg=None):
         stmt = fix_empty_children(stmt)
